@@ -351,6 +351,39 @@ func init() {
 				}
 			})
 		}
+		// (4) the three-state outcome rule is a trace property: judge it on
+		// the other checks' generated scenarios too, a subset under every
+		// single fault
+		nBorrow, nBorrowFault := 60, 4
+		if thorough() {
+			nBorrow, nBorrowFault = 1500, 100
+		}
+		for name, gen := range borrowedGenerators() {
+			name, gen := name, gen
+			for i := 0; i < nBorrow; i++ {
+				i := i
+				jobs = append(jobs, func() {
+					sc := gen(prng.New(r.SeedV, "c10.borrow."+name, i))
+					if sc == nil || len(sc.Requests) == 0 {
+						return
+					}
+					sc.Name = fmt.Sprintf("borrowed:%s#%d", name, i)
+					judge := func(sc *sim.Scenario, res *sim.Result) {
+						r.Eval(1)
+						r.Count("borrowed_runs", 1)
+						r.NonTrivial(fmt.Sprintf("%s|%v", sc.Name, sc.FailAt))
+						for i, rp := range res.Responses {
+							report(sc, map[string]interface{}{"fail_at": sc.FailAt}, res, outcomeMonitor(sc.Requests[i].Kind, rp))
+						}
+					}
+					if i < nBorrowFault {
+						faultSweep(sc, false, judge)
+					} else {
+						judge(sc, sim.Run(sc))
+					}
+				})
+			}
+		}
 		parallel(jobs)
 		return r.Finish()
 	}
